@@ -326,9 +326,22 @@ func c18Sign(r *core.Result, c core.Case, env *core.Env) {
 		size := t + 1 + rg.Intn(n-t)
 		sel := rg.Perm(n)[:size]
 		session := stored.Copy().Subset(sel).(*ecdsaSet) // per-session deep copy
-		if err := ecdsasigning.UpdatePublicKeyAndAdjustBigXj(delta, session.d, &child.PublicKey, tss.S256()); err != nil {
-			r.Fail("kdd:adjust", "UpdatePublicKeyAndAdjustBigXj failed: %v", err)
-			return
+		if step%2 == 0 {
+			// one call with the data of all signers (how the repository's own test does it)
+			if err := ecdsasigning.UpdatePublicKeyAndAdjustBigXj(delta, session.d, &child.PublicKey, tss.S256()); err != nil {
+				r.Fail("kdd:adjust", "UpdatePublicKeyAndAdjustBigXj failed: %v", err)
+				return
+			}
+			r.AddSet("adjust_modes", "all-signers-in-one-call")
+		} else {
+			// the distributed configuration: every node adjusts only its own key data
+			for i := range session.d {
+				if err := ecdsasigning.UpdatePublicKeyAndAdjustBigXj(delta, session.d[i:i+1], &child.PublicKey, tss.S256()); err != nil {
+					r.Fail("kdd:adjust", "UpdatePublicKeyAndAdjustBigXj (own data only) failed: %v", err)
+					return
+				}
+			}
+			r.AddSet("adjust_modes", "each-node-its-own-data")
 		}
 		msg := randBig(rg, ref.SecpN)
 		adjusted := snapshotECDSA(session.d) // the adjusted key data the application holds for this child key
@@ -413,6 +426,22 @@ func nonceTap(w *sim.World, into map[string][]string) {
 }
 
 func jsonReload(r *core.Result, ks keyset) keyset {
+	// stored data must mean the same whatever the process-wide default curve is when it is loaded (a process may serve
+	// both curves and switch the deprecated global): every other record is loaded under the other default
+	prev := tss.EC()
+	defer tss.SetCurve(prev)
+	flip := func(i int) {
+		if i%2 == 1 {
+			if tss.SameCurve(prev, tss.S256()) {
+				tss.SetCurve(tss.Edwards())
+			} else {
+				tss.SetCurve(tss.S256())
+			}
+			r.Count("loads_under_other_default_curve", 1)
+		} else {
+			tss.SetCurve(prev)
+		}
+	}
 	switch s := ks.(type) {
 	case *ecdsaSet:
 		o := &ecdsaSet{}
@@ -423,6 +452,7 @@ func jsonReload(r *core.Result, ks keyset) keyset {
 				return nil
 			}
 			var d ecdsakeygen.LocalPartySaveData
+			flip(i)
 			if err := json.Unmarshal(b, &d); err != nil {
 				r.Fail("store:unmarshal", "cannot load serialised key data: %v", err)
 				return nil
@@ -439,6 +469,7 @@ func jsonReload(r *core.Result, ks keyset) keyset {
 				return nil
 			}
 			var d eddsakeygen.LocalPartySaveData
+			flip(i)
 			if err := json.Unmarshal(b, &d); err != nil {
 				r.Fail("store:unmarshal", "cannot load serialised key data: %v", err)
 				return nil
